@@ -103,21 +103,35 @@ static uint64_t g_serial = 0;
 static int g_fill = 0xA5;
 static bool g_allocev = true;
 
+// blocks are named by their size; when the sizes of several kinds coincide every candidate is named ("chan|open") and the comparison with the
+// model accepts any of them - a struct that happens to grow or shrink to another kind's size is not a behavioural difference
 static const char* kind_of(size_t sz)
 {
+	static std::map<size_t, std::string> memo;
+	auto it = memo.find(sz);
+	if (it != memo.end())
+		return it->second.c_str();
+	std::string k;
+	auto add = [&k](const char* n) {
+		if (!k.empty())
+			k += "|";
+		k += n;
+	};
 	if (sz == sizeof(struct utcp_bunch_node))
-		return "node";
+		add("node");
 	if (sz == sizeof(struct utcp_channel))
-		return "chan";
+		add("chan");
 	if (sz == sizeof(struct utcp_challenge_data))
-		return "chal";
+		add("chal");
 	if (sz == sizeof(struct utcp_connection))
-		return "conn";
+		add("conn");
 	if (sz == sizeof(struct utcp_listener))
-		return "lsn";
+		add("lsn");
 	if (sz % sizeof(uint16_t) == 0 && sz >= 64 && sz <= 4 * DEFAULT_MAX_CHANNEL_SIZE)
-		return "open";
-	return "other";
+		add("open");
+	if (k.empty())
+		k = "other";
+	return memo.emplace(sz, k).first->second.c_str();
 }
 
 static void* on_realloc_cb(void* ptr, size_t size)
